@@ -310,3 +310,37 @@ pub fn spec_step(s: &mut CState, buf: &[u8], pos: &mut usize) -> StepOut {
         }
     }
 }
+
+/// The state with every field that has no meaning in its arm cleared (so that two quiescent
+/// states can be compared with `==`).
+pub fn normalized(s: &CState) -> CState {
+    let mut n = CState {
+        arm: s.arm,
+        box_type: [0; 4],
+        box_size: None,
+        brotli_box_type: None,
+        bytes_left: None,
+        kind: 0,
+        pending_no_more_aux_box: false,
+        jxlp_state: s.jxlp_state,
+        jxlp_index: if s.jxlp_state == 2 { s.jxlp_index } else { 0 },
+    };
+    match s.arm {
+        2 => {
+            n.box_type = s.box_type;
+            n.box_size = s.box_size;
+        }
+        3 => {
+            n.box_type = s.box_type;
+            n.brotli_box_type = s.brotli_box_type;
+            n.bytes_left = s.bytes_left;
+        }
+        4 => {
+            n.kind = s.kind;
+            n.bytes_left = s.bytes_left;
+            n.pending_no_more_aux_box = s.pending_no_more_aux_box;
+        }
+        _ => {}
+    }
+    n
+}
